@@ -13,6 +13,7 @@ import PysersicModel.Driver.Render
 import PysersicModel.Driver.Prob
 import PysersicModel.Driver.MapDict
 import PysersicModel.Driver.MultiBand
+import PysersicModel.Driver.GenK
 
 open Pysersic
 
@@ -53,6 +54,7 @@ def dispatch (line : String) : String :=
     | "mbrange" => Driver.mbRangeCmd args
     | "relabel" => Driver.relabelCmd args
     | "dot" => Driver.dotCmd args
+    | "genk" => Driver.genkCmd args
     | _ => "bad-op " ++ cmd
 
 partial def loop (h : IO.FS.Stream) (out : IO.FS.Stream) : IO Unit := do
